@@ -302,3 +302,41 @@ func H_C16_jsonEscapes(kind int) {
 		verifAssert(verifBytesEq([]byte(s.Value), want), "C16: an escaped character in invocation data denotes the same text in the call (\\uXXXX is the code point; a surrogate pair is one character)")
 	}
 }
+
+// ---- C08: small programs at the corners of the compile passes ----
+
+var c08Corners = []string{
+	// 0: two pipelines calling each other, without parameters
+	"pipeline A(\n    out int y,\n)\n{\n    call B()\n\n    return (\n        y = 1,\n    )\n}\n\npipeline B(\n    out int y,\n)\n{\n    call A()\n\n    return (\n        y = A.y,\n    )\n}\n\ncall A()\n",
+	// 1..3: resource values beyond the float32 range
+	"stage A(\n    in  int x,\n    src comp \"x\",\n) using (\n    mem_gb = 1e39,\n)\n",
+	"stage A(\n    in  int x,\n    src comp \"x\",\n) using (\n    threads = 1e39,\n)\n",
+	"stage A(\n    in  int x,\n    src comp \"x\",\n) using (\n    vmem_gb = -1e39,\n)\n",
+	// 4: a wildcard binding of the top-level call
+	"stage A(\n    in  int x,\n    src comp \"x\",\n)\n\ncall A(\n    * = self,\n)\n",
+	// 5: three pipelines calling each other in a ring, with a parameter passed along
+	"pipeline A(\n    in  int x,\n)\n{\n    call B(\n        x = self.x,\n    )\n\n    return ()\n}\n\npipeline B(\n    in  int x,\n)\n{\n    call C(\n        x = self.x,\n    )\n\n    return ()\n}\n\npipeline C(\n    in  int x,\n)\n{\n    call A(\n        x = self.x,\n    )\n\n    return ()\n}\n\ncall A(\n    x = 1,\n)\n",
+	// 6: a valid control program
+	"stage A(\n    in  int x,\n    src comp \"x\",\n) using (\n    mem_gb = 1.5,\n)\n\ncall A(\n    x = 1,\n)\n",
+}
+
+// H_C08_compileCorners(i): parse, compile and resolve the call graph of small
+// program i.
+//
+//	C08: the result is a tree or an error; never a panic, and never unbounded
+//	     recursion (more than 150 nested calls on these few lines is the Go
+//	     runtime's fatal stack overflow).
+func H_C08_compileCorners(i int) {
+	verifRecursionLimit(150)
+	var parser Parser
+	_, _, ast, err := parser.ParseSourceBytes([]byte(c08Corners[i]), "/m/corner.mro", nil, false)
+	verifCover("corner program compiled")
+	if err == nil && ast != nil && ast.Call != nil {
+		_, gerr := ast.MakeCallGraph("ID.", ast.Call)
+		_ = gerr
+		verifCover("corner program resolved")
+	}
+	if i == 6 {
+		verifAssert(err == nil, "the control program compiles")
+	}
+}
